@@ -389,3 +389,33 @@ DIFFERENCE_MATRIX = Contract(
     canary="result[0, 1] == 0",
 )
 ALL.append((DIFFERENCE_MATRIX, "heavy", "Calculus.difference_matrix", None))
+
+
+# ---- heavy.Calculus.derivate_nonrational_bezier (reduce=True): the closed form of the Bezier derivative, all degrees ------------------------------
+def dbez_closed(se, r, c):
+    U = se.st.env["U"]
+    p = se.st.env["p"].z
+    L = z3.Select(U.arr, U.n - 1) - z3.Select(U.arr, 0)
+    return Num(z3.If(c.z == r.z, -z3.ToReal(p) / L, z3.If(c.z == r.z + 1, z3.ToReal(p) / L, z3.RealVal(0))), False)
+
+
+def dbez_partial(se, r, c, upto):
+    p = se.st.env["p"].z
+    return Num(z3.If(r.z < upto.z, z3.If(c.z == r.z, -z3.ToReal(p), z3.If(c.z == r.z + 1, z3.ToReal(p), z3.RealVal(0))), z3.RealVal(0)), False)
+
+
+DERIV_BEZIER = Contract(
+    "heavy.Calculus.derivate_nonrational_bezier[reduce=True]",
+    params={"knotvector": "obj:ImmutableKnotVector", "reduce": "bool"},
+    setup=lambda eng, st: (setup_self(eng, st), st.env.__setitem__("knotvector", st.env["self"]), st.assume(st.env["reduce"].z)),
+    spec={"dbez": dbez_closed, "part": dbez_partial},
+    # Q_i = p (P_(i+1) - P_i) / (umax - umin): row i has -p/L at column i and p/L at column i+1, for EVERY degree
+    ensures=["all(all(result[r, c] == dbez(r, c) for c in range(p + 1)) for r in range(p))"],
+    raises={"AssertionError": "p <= 0"},
+    loops={0: dict(invariant=["0 <= it0 and it0 <= degree", "degree == p", "all(all(matrix[r, c] == part(r, c, it0) for c in range(p + 1)) for r in range(p))"],
+                   decreases="degree - it0")},
+    calls=dict(KV_CALLS, **{"func:ImmutableKnotVector": CallSpec(h_ctor_identity), "static:np.zeros": CallSpec(h_np_zeros_any), "func:totuple": CallSpec(h_totuple_any)}),
+    consts={"np": E.Const(("module", "np")), "Operations": E.Const(("module", "Operations"))},
+    canary="result[0, 0] == 0",
+)
+ALL.append((DERIV_BEZIER, "heavy", "Calculus.derivate_nonrational_bezier", None))
